@@ -156,6 +156,8 @@ func newShared(p uint32) *c18Shared {
 		"1":  mustDec("1"),
 		"m1": mustDec("-1"),
 		"big": mustDec("9E+1999"),
+		"nb":  mustDec("-987654321098765432109876543210987654321012345.678"),
+		"n2":  mustDec("-44.1250"),
 	}
 	s.init = s.dump()
 	s.initLocal = s.dumpLocal()
@@ -256,6 +258,7 @@ func c18Scenarios() []c18Scenario {
 		{"mul;quo||add;quantize (two calls per thread)", 9, [][]c18Call{t(ctxCall2("Mul", cMul, "a", "t"), ctxCall2("Quo", cQuo, "x1", "y3")), t(ctxCall2("Add", cAdd, "b", "a"), ctxCall1("Quantize-135", cQ135, "q"))}, false, 1, 2},
 		{"trapped conditions: quo(1/0)||quo(0/0)||sqrt(-1) (different trap errors from one shared Context)", 9, [][]c18Call{t(ctxCall2("Quo", cQuo, "1", "0")), t(ctxCall2("Quo", cQuo, "0", "0")), t(ctxCall1("Sqrt", cSqrt, "m1"))}, false, 1, 2},
 		{"trapped conditions: mul-overflow;rem(1,0)||quointeger-impossible;ln(-1)", 3, [][]c18Call{t(ctxCall2("Mul", cMul, "big", "big"), ctxCall2("Rem", cRem, "1", "0")), t(ctxCall2("QuoInteger", cQuoI, "b", "y7"), ctxCall1("Ln", cLn, "m1"))}, false, 1, 2},
+		{"negative operands: readers(n,nb)||add(n,nb)||readers(n2,n) (read-only methods on shared negative decimals)", 12, [][]c18Call{t(readers("n", "nb")), t(ctxCall2("Add", cAdd, "n", "nb")), t(readers("n2", "n"))}, false, 1, 2},
 		{"sqrt||sqrt (WithPrecision on the shared context)", 9, [][]c18Call{t(ctxCall1("Sqrt", cSqrt, "a")), t(ctxCall1("Sqrt", cSqrt, "b"))}, true, 1, 1},
 		{"ln||log10 (ln10 / 1/ln10 tables at different precisions)", 7, [][]c18Call{t(ctxCall1("Ln", cLn, "a")), t(ctxCall1("Log10", cLog10, "b"))}, true, 1, 1},
 		{"exp||ln-near-one (power series)", 6, [][]c18Call{t(ctxCall1("Exp", cExp, "t")), t(ctxCall1("Ln", cLn, "z"))}, true, 1, 1},
